@@ -282,14 +282,33 @@ def _after_xy(ctx, fi, fq, outs, alts, raw, key):
                     and f.name != "_get_public_key_data")
     ppo = [o for o in evp.outcomes(pa) if o.kind == "return"]
     pipeline_decided, bad_ = False, None
+    # the converter's state for a sample of options: every attribute the constructor stores, evaluated from the constructor's own
+    # stores (whatever the private attributes are called; the constructor's parameters are the public names)
+    init_ = repo.func(CONV, "KeyConverter.__init__")
+    iouts_ = [o_ for o_ in Evaluator(repo, inline_depth=0).outcomes(init_) if o_.kind == "return"]
+    istores = [(e_.args[0], e_.args[1].v, e_.args[2]) for e_ in (iouts_[0].effects if len(iouts_) == 1 else ())
+               if isinstance(e_, App) and e_.op == "eff:setattr" and isinstance(e_.args[1], Const)]
+
+    def state(cols_, ind_):
+        pe = {"param:columns_count": cols_, "param:indentation_count": len(ind_), "param:indentation_tab": False}
+        st_ = {}
+        for obj_, attr_, term_ in istores:
+            if obj_ != SELF:
+                continue
+            try:
+                st_[App("attr:" + attr_, (SELF,))] = teval(term_, {**pe, **st_})
+            except Unknown:
+                pass
+        st_.setdefault(App("attr:_columns_count", (SELF,)), cols_)
+        st_.setdefault(App("attr:_indentation", (SELF,)), ind_)
+        return st_
     if len(ppo) == 1:
         try:
             n_ = 0
             for key in (b"", b"A", b"ABC", b"ABCDEFG", bytes(range(250, 256)) + bytes(range(0, 27))):
                 for cols_ in (1, 3, 8):
                     for ind_ in ("", "    "):
-                        env = {"__calls__": {"_get_public_key_data": lambda s_, k_=key: k_}, App("attr:_columns_count", (SELF,)): cols_,
-                               App("attr:_indentation", (SELF,)): ind_, **generic.loops_env(ppo[0])}
+                        env = {"__calls__": {"_get_public_key_data": lambda s_, k_=key: k_}, **state(cols_, ind_), **generic.loops_env(ppo[0])}
                         got = teval(ppo[0].value, env)
                         rows_ = [key[i_:i_ + cols_] for i_ in range(0, len(key), cols_)]
                         want_ = ",\n".join(ind_ + ", ".join("0x%02x" % b_ for b_ in r_) for r_ in rows_) + "\n"
@@ -355,9 +374,12 @@ def _after_xy(ctx, fi, fq, outs, alts, raw, key):
     for n_ in ast.walk(init.node):
         if isinstance(n_, ast.Assign) and isinstance(n_.targets[0], ast.Attribute) and isinstance(n_.value, ast.Name) \
                 and n_.value.id in init.params():
-            R.check("C15-D2d constructor stores options under their own names", n_.targets[0].attr == "_" + n_.value.id,
+            # a private attribute may be called anything - but not after ANOTHER option (a crossed store)
+            other = n_.targets[0].attr.lstrip("_")
+            crossed = other != n_.value.id and other in init.params()
+            R.check("C15-D2d constructor stores options under their own names", not crossed,
                     f"self.{n_.targets[0].attr} = {n_.value.id}", mod=init.module, node=n_, function=ctx.fq(init),
-                    expected=f"self._{n_.value.id}", found=f"self.{n_.targets[0].attr}")
+                    expected=f"self._{n_.value.id} (or a name of its own)", found=f"self.{n_.targets[0].attr}: the attribute named after option {other!r} receives option {n_.value.id!r}")
 
 
 def _same_value(a, b):
